@@ -401,6 +401,35 @@ def mkJoint (ds : List (Dens V K)) : Except Err (Obj V K) :=
   | .ok () => .ok (.joint .plain ds)
   | .error e => .error e
 
+/-! `BayesianProblem` (`cuqi/problem/_problem.py`): the problem holds a *target*, initially
+    `JointDistribution(*densities)(**data)`; the accessors hand out parts of a `Posterior` target. -/
+
+/-- `BayesianProblem(*densities, **data)._target` -/
+def mkProblem (ds : List (Dens V K)) (data : Kw V) : Except Err (Obj V K) :=
+  match mkJoint ds with
+  | .ok o => o.cond [] data
+  | .error e => .error e
+
+/-- `BayesianProblem.set_data(**kw)`: only while the target is a `JointDistribution` (sub)class -/
+def Obj.setData : Obj V K → Kw V → Except Err (Obj V K)
+  | .joint fl ds, kw => condJoint fl ds [] kw
+  | _, _ => .error .value
+
+/-- `BayesianProblem.posterior` (the target itself when it is a `Posterior`) -/
+def Obj.posterior : Obj V K → Except Err (Obj V K)
+  | .post L P c n => .ok (.post L P c n)
+  | _ => .error .value
+
+/-- `BayesianProblem.likelihood` -/
+def Obj.likelihood : Obj V K → Except Err (Obj V K)
+  | .post L _ _ _ => .ok (.single L)
+  | _ => .error .value
+
+/-- `BayesianProblem.prior` -/
+def Obj.prior : Obj V K → Except Err (Obj V K)
+  | .post _ P _ _ => .ok (.single P)
+  | _ => .error .value
+
 end
 
 end CuqiVerif.C01
